@@ -25,6 +25,20 @@ thread_local! {
 impl GuardBuf {
     /// A zeroed buffer of exactly `len` bytes (possibly recycled).
     pub fn new(len: usize) -> Self {
+        if cfg!(feature = "asan") {
+            // exact heap allocation: AddressSanitizer puts red zones on both sides
+            let ptr = if len == 0 {
+                64 as *mut u8 // aligned, never dereferenceable
+            } else {
+                unsafe { std::alloc::alloc_zeroed(std::alloc::Layout::from_size_align(len, 64).unwrap()) }
+            };
+            return Self {
+                map: core::ptr::null_mut(),
+                map_len: 0,
+                ptr,
+                len,
+            };
+        }
         let cached = POOL.with(|p| p.borrow_mut().get_mut(&len).and_then(|v| v.pop()));
         if let Some((map, map_len, ptr)) = cached {
             let b = Self {
@@ -94,6 +108,14 @@ impl GuardBuf {
 }
 impl Drop for GuardBuf {
     fn drop(&mut self) {
+        if self.map.is_null() {
+            if self.len > 0 {
+                unsafe {
+                    std::alloc::dealloc(self.ptr, std::alloc::Layout::from_size_align(self.len, 64).unwrap())
+                };
+            }
+            return;
+        }
         let entry = (self.map as usize, self.map_len, self.ptr as usize);
         let len = self.len;
         let kept = POOL
